@@ -9,9 +9,13 @@ import (
 	"encoding/json"
 	"fmt"
 	"os"
+	"path/filepath"
 	"sort"
 	"strconv"
 	"strings"
+
+	kit "github.com/dapr/kit/crypto"
+	"github.com/lestrrat-go/jwx/v2/jwk"
 
 	"verifharness/lib"
 )
@@ -304,15 +308,21 @@ func (r *runner) run(c *Case) {
 	}
 }
 
-// structured cases: every function × lengths around block boundaries × spare capacities, with the
-// argument alone in its buffer — the plain shape of the defect class.
+// structured cases: the plain shapes of the defect class, enumerated rather than sampled —
+// PadPKCS7 for every length 0..40 x every spare capacity 0..64 (exhaustive small scope); every
+// symmetric algorithm encrypting and decrypting (valid input) at lengths around the block
+// boundaries x spare capacities {0,1,15,16,17,64}; Seal/Open of every AES-CBC-HMAC variant with
+// every dst mode.
 func (r *runner) structured(g *gen) {
+	for L := 0; L <= 40; L++ {
+		for sp := 0; sp <= 64; sp++ {
+			c := &Case{Fn: "padding.PadPKCS7", Size: 16, Auth: true, Prim: true, OutLen: -1, Path: "ok"}
+			g.layout(c, []req{{name: "buf", data: g.r.Bytes(L), spare: sp}})
+			r.run(c)
+		}
+	}
 	for _, L := range []int{0, 1, 15, 16, 17, 31, 32, 33} {
 		for _, sp := range []int{0, 1, 15, 16, 17, 64} {
-			data := g.r.Bytes(L)
-			c := &Case{Fn: "padding.PadPKCS7", Size: 16, Auth: true, Prim: true, OutLen: -1, Path: "ok"}
-			g.layout(c, []req{{name: "buf", data: data, spare: sp}})
-			r.run(c)
 			for _, alg := range symAlgs {
 				ks, ns := symSizes(alg)
 				n := L
@@ -322,13 +332,58 @@ func (r *runner) structured(g *gen) {
 				if family(alg) == "aeskw" {
 					n = 16 + L/8*8
 				}
+				key, nonce, ad, pt := g.r.Bytes(ks), g.r.Bytes(ns), g.r.Bytes(5), g.r.Bytes(n)
 				c := &Case{Fn: "crypto.EncryptSymmetric", Alg: alg, KeyKind: "oct", Auth: true, Prim: true, OutLen: -1, Path: "ok"}
-				g.layout(c, []req{{name: "plaintext", data: g.r.Bytes(n), spare: sp}, {name: "key", data: g.r.Bytes(ks), spare: sp},
-					{name: "nonce", data: g.r.Bytes(ns), spare: sp, nilable: true}, {name: "associatedData", data: g.r.Bytes(5), spare: sp}})
+				g.layout(c, []req{{name: "plaintext", data: pt, spare: sp}, {name: "key", data: key, spare: sp},
+					{name: "nonce", data: nonce, spare: sp, nilable: true}, {name: "associatedData", data: ad, spare: sp}})
 				r.run(c)
+				jk, err := jwk.FromRaw(append([]byte(nil), key...))
+				if err != nil {
+					continue
+				}
+				ct, tag, err := kit.EncryptSymmetric(append([]byte(nil), pt...), alg, jk, append([]byte(nil), nonce...), append([]byte(nil), ad...))
+				if err != nil {
+					r.res.Note("structured: cannot produce a valid ciphertext for " + alg + ": " + err.Error())
+					continue
+				}
+				d := &Case{Fn: "crypto.DecryptSymmetric", Alg: alg, KeyKind: "oct", Auth: true, Prim: true, OutLen: -1, Path: "ok"}
+				switch family(alg) {
+				case "aescbc", "aescbc-nopad":
+					d.Dec = hex.EncodeToString(cbcDecryptRaw(key, nonce, ct))
+				case "aescbchmac":
+					d.Dec = hex.EncodeToString(cbcDecryptRaw(key[len(key)-cbcAeadParams[alg].enc:], nonce, ct))
+				}
+				g.layout(d, []req{{name: "ciphertext", data: ct, spare: sp}, {name: "key", data: key, spare: sp},
+					{name: "nonce", data: nonce, spare: sp, nilable: true}, {name: "tag", data: tag, spare: sp, nilable: true},
+					{name: "associatedData", data: ad, spare: sp}})
+				r.run(d)
 			}
 		}
 	}
+	for _, alg := range cbcAeadAlgs {
+		p := cbcAeadParams[alg]
+		for _, mode := range dstModes {
+			for _, L := range []int{0, 1, 15, 16, 17, 32} {
+				for _, sp := range []int{0, 1, 16, 17, 64} {
+					key, nonce, ad, pt := g.r.Bytes(p.enc+p.mac), g.r.Bytes(16), g.r.Bytes(7), g.r.Bytes(L)
+					c := &Case{Fn: "aescbcaead.Seal", Alg: alg, Auth: true, Prim: true, OutLen: -1, Path: "ok"}
+					g.layout(c, []req{{name: "plaintext", data: pt, spare: sp}, {name: "nonce", data: nonce, spare: sp},
+						{name: "additionalData", data: ad, spare: sp}, {name: "key", data: key, spare: sp}})
+					g.addDstMode(c, "plaintext", len(pkcs7(pt, 16))+p.tag, mode)
+					r.run(c)
+					raw := pkcs7(pt, 16)
+					body := cbcEncryptRaw(key[len(key)-p.enc:], nonce, raw)
+					sealed := append(append([]byte(nil), body...), cbcHmacTag(p, key, ad, nonce, body)...)
+					o := &Case{Fn: "aescbcaead.Open", Alg: alg, Auth: true, Prim: true, OutLen: -1, Path: "ok", Dec: hex.EncodeToString(raw)}
+					g.layout(o, []req{{name: "ciphertext", data: sealed, spare: sp}, {name: "nonce", data: nonce, spare: sp},
+						{name: "additionalData", data: ad, spare: sp}, {name: "key", data: key, spare: sp}})
+					g.addDstMode(o, "ciphertext", len(body), mode)
+					r.run(o)
+				}
+			}
+		}
+	}
+	r.flush()
 }
 
 func main() {
@@ -380,6 +435,25 @@ func main() {
 	}
 	if fl.Search {
 		mult *= 10
+	}
+	// corpus first: the concrete failing inputs found on the unchanged tree
+	if dir := os.Getenv("VERIF_DIR"); dir != "" {
+		files, _ := filepath.Glob(filepath.Join(dir, "corpus", "C17", "*.json"))
+		sort.Strings(files)
+		for _, f := range files {
+			raw, err := os.ReadFile(f)
+			if err != nil {
+				continue
+			}
+			var rp struct {
+				Case *Case `json:"case"`
+			}
+			if json.Unmarshal(raw, &rp) == nil && rp.Case != nil {
+				r.run(rp.Case)
+				res.Hit("corpus-case")
+			}
+		}
+		r.flush()
 	}
 	r.structured(g)
 	fams := []struct {
